@@ -57,13 +57,13 @@ HANDOUT_APIS = ["System.__iter__", "System.__getitem__", "SystemGro.__iter__", "
 
 def run(ctx: Ctx):
     E = Effects(ctx.repo)
-    r18_1(ctx, E)
-    r18_2(ctx, E)
-    r18_3(ctx, E)
-    r18_4(ctx, E)
-    r18_5(ctx, E)
-    r18_6(ctx)
-    r18_7(ctx, E)
+    ctx.attempt("R18.1", lambda: r18_1(ctx, E))
+    ctx.attempt("R18.2", lambda: r18_2(ctx, E))
+    ctx.attempt("R18.3", lambda: r18_3(ctx, E))
+    ctx.attempt("R18.4", lambda: r18_4(ctx, E))
+    ctx.attempt("R18.5", lambda: r18_5(ctx, E))
+    ctx.attempt("R18.6", lambda: r18_6(ctx))
+    ctx.attempt("R18.7", lambda: r18_7(ctx, E))
 
 
 def dict_clone_sites(fn: ast.AST) -> List[ast.AST]:
@@ -315,8 +315,22 @@ def r18_2(ctx: Ctx, E: Effects, rule="R18.2"):
                 continue
             local = e.target[len("item of "):]
             # the exempted storage is identified by what the local aliases, not by the local's name
-            aliases = [s_ for s_ in walk_no_nested(f.node) if isinstance(s_, ast.Assign) and norm(s_.targets[0]) == local
-                       and norm(s_.value) == "self._available_mgro_ordered"]
+            def _is_bookkeeping(name_, depth_=0):
+                # the attribute itself, a local bound to it, or a slice (view) of either
+                if name_ == "self._available_mgro_ordered":
+                    return True
+                if depth_ > 3:
+                    return False
+                for s_ in walk_no_nested(f.node):
+                    if isinstance(s_, ast.Assign) and norm(s_.targets[0]) == name_:
+                        v_ = s_.value
+                        while isinstance(v_, ast.Subscript) and isinstance(v_.slice, ast.Slice):
+                            v_ = v_.value
+                        if not _is_bookkeeping(norm(v_), depth_ + 1):
+                            return False
+                        return True
+                return False
+            aliases = _is_bookkeeping(local)
             if aliases or local == "self._available_mgro_ordered":
                 hits.remove((f, e))
                 exempted.append({"function": fq, "symbol": "self._available_mgro_ordered (local `%s`)" % local, "reason": why})
@@ -367,7 +381,7 @@ def r18_3(ctx: Ctx, E: Effects, rule="R18.3"):
         okg = bool(pfind3(gi.node, "Atom(self._molecule_top[%s], self._residues[%s][self._each_atom_resid[:%s].count(%s)])"
                           % (ip, rv, ip, rv)))
     at_calls = [c_ for c_ in calls_in(gi.node) if call_name(c_) == "Atom"]
-    if okg or not rr or not at_calls:
+    if okg or not at_calls:
         ctx.ob(rule, gi, "atom lookup in Molecule.__getitem__", okg,
                "atom i is (topology atom i, coordinate atom number 'atoms of the same residue before i' of the residue that atom i "
                "belongs to)", node=gi.node)
